@@ -538,6 +538,35 @@ def run(repo, rep, tier):
                     'parse_iparamvalue and the DTD differ in the allowed '
                     'children: %s' % sorted(accepted ^ dtdch))
     _linearity(repo, rep)
+    # ---- R3b: the built-in default namespace is used in one place only -----
+    # `DEFAULT_NAMESPACE` (root/cimv2) may only initialise the connection's
+    # default_namespace; every operation falls back to the *connection's*
+    # default (self.default_namespace), which is what the mock does too.
+    r3b = rep.rule('C04.R3b', 'operations fall back to the connection default '
+                   'namespace, never to the built-in constant')
+    allowed_users = ('_set_default_namespace', '__init__')
+    uses = 0
+    for name, f in list(conn.methods.items()) + list(conn.setters.items()):
+        for n in walk_no_nested(f.node):
+            if isinstance(n, ast.Name) and n.id == 'DEFAULT_NAMESPACE':
+                uses += 1
+                r3b.sites += 1
+                ok = f.name in allowed_users
+                r3b.ob(ok, '%s|DEFAULT_NAMESPACE' % f.qualname,
+                       {'function': f.qualname})
+                if not ok:
+                    rep.finding(r3b, f.qualname, 'DEFAULT_NAMESPACE',
+                                'builtin-default', OPS, n.lineno,
+                                'the operation path uses the built-in '
+                                'namespace constant instead of '
+                                'self.default_namespace: on a connection '
+                                'whose default namespace is not root/cimv2 '
+                                'the request targets another namespace than '
+                                'the same operation done directly')
+    if uses == 0:
+        raise AnalysisError('DEFAULT_NAMESPACE is no longer used to '
+                            'initialise WBEMConnection.default_namespace '
+                            '(anchor of C04.R3b)')
 
 
 def _linearity(repo, rep):
